@@ -145,6 +145,10 @@ inductive Cmd where
   | keyrollActivate (na : Int)
   /-- `KeyRollFinish` -/
   | keyrollFinish (rcn : Rcn)
+  /-- `RepoUpdate`: sets the repository; when there already is one, every class must be `Active`
+  and starts a roll towards the new repository (certauth.rs:2150-2192); `fresh` as for
+  `keyrollInit` -/
+  | repoUpdate (fresh : AMap Rcn KeyId)
   /-- a configuration change or renewal (`RouteAuthorizationsUpdate`, `AspasUpdate`, …, `…Renew`):
   the object updates it computed, per class -/
   | config (upds : List (Rcn × ProdUpd))
@@ -173,6 +177,8 @@ inductive Err where
   | parentUnknown
   /-- `CaRepoIssue` (no repository configured) -/
   | noRepo
+  /-- `KeyRollInProgress` -/
+  | keyRollInProgress
   /-- the input does not provide a new key where the code creates one, or the new key is
   already a key of that class (`create_key` returns new keys) -/
   | badFreshKey
@@ -407,6 +413,13 @@ def Ca.process (s : Ca) : Cmd → Except Err (List Ev)
     else if !s.hasRepo then .error .noRepo
     else keyrollInitLoop fresh s.classes
   | .keyrollActivate na => activateLoop na s.classes
+  | .repoUpdate fresh =>
+    if !s.hasRepo then .ok [.repoUpdated]
+    else if s.classes.any (fun p => p.2.keys.variant ≠ .active) then .error .keyRollInProgress
+    else
+      match keyrollInitLoop fresh s.classes with
+      | .error e => .error e
+      | .ok evs => .ok (evs ++ [.repoUpdated])
   | .keyrollFinish rcn =>
     match get s.classes rcn with
     | none => .error .unknownClass
